@@ -71,3 +71,39 @@ pub fn c12_native_random_replacement() {
     }}}}
     println!("c12_native_random_replacement: {} cases checked", n);
 }
+
+// BOUNDED STAND-IN (not a proof) for `MuPlusLambda::replace` on the real std sort (the Verus unit `mu_plus_lambda` proves the kernel
+// against the ASSUMED meaning of extend / sort_unstable_by_key / truncate; the Kani kernels cover sizes <= 2+2): "the mu best of
+// both (no discarded individual is better than a kept one)", min(mu, total) individuals, each taken from parents ++ offspring at
+// most as often as it occurred there.  Exhaustive over a value grid.
+// @native-harness
+pub fn c12_native_mu_plus_lambda() {
+    use crate::components::replacement::MuPlusLambda;
+    let values = [-1.0, 0.0, 0.5, 2.0, f64::INFINITY];
+    let mut rng = Random::new(0);
+    let mut n = 0u64;
+    for np in 0..=3usize { for no in 0..=3usize {
+        let combos = values.len().pow((np + no) as u32);
+        for c in 0..combos {
+            let mut k = c;
+            let parents: Vec<I> = (0..np).map(|i| { let v = values[k % values.len()]; k /= values.len(); ind(1 + i as u8, v) }).collect();
+            let offspring: Vec<I> = (0..no).map(|i| { let v = values[k % values.len()]; k /= values.len(); ind(101 + i as u8, v) }).collect();
+            for mu in 0..=(np + no + 1) as u32 {
+                let res = <MuPlusLambda as Replacement<ScalarProblem>>::replace(&MuPlusLambda::from_params(mu), parents.clone(), offspring.clone(), &mut rng).expect("MuPlusLambda must not fail");
+                let mut all: Vec<(f64, u8)> = parents.iter().chain(&offspring).map(|i| (i.objective().value(), *i.solution())).collect();
+                all.sort_by(|a, b| a.0.total_cmp(&b.0));
+                let want = (mu as usize).min(np + no);
+                let kept: Vec<(f64, u8)> = res.iter().map(|i| (i.objective().value(), *i.solution())).collect();
+                let mut tags: Vec<u8> = kept.iter().map(|k| k.1).collect(); tags.sort_unstable(); tags.dedup();
+                let ok = kept.len() == want && tags.len() == kept.len() && kept.iter().all(|k| all.contains(k))
+                    && kept.iter().map(|k| k.0).collect::<Vec<_>>() == all[..want].iter().map(|a| a.0).collect::<Vec<_>>();
+                if !ok {
+                    eprintln!("COUNTEREXAMPLE mu={mu} parents={:?} offspring={:?}: kept (objective, tag) {kept:?}", parents.iter().map(|i| i.objective().value()).collect::<Vec<_>>(), offspring.iter().map(|i| i.objective().value()).collect::<Vec<_>>());
+                    panic!("MuPlusLambda: not the mu best of parents ++ offspring");
+                }
+                n += 1;
+            }
+        }
+    }}
+    println!("c12_native_mu_plus_lambda: {} cases checked", n);
+}
